@@ -44,6 +44,24 @@ type evlog struct {
 	ev []trace.M
 }
 
+// flushedAfterIndexBlock: the log shows IndexBlock(h) followed by a Flush.
+func (l *evlog) flushedAfterIndexBlock(h int64) bool {
+	l.mu.Lock()
+	defer l.mu.Unlock()
+	seen := false
+	for _, e := range l.ev {
+		switch e["ev"] {
+		case "IndexBlock":
+			seen = e["h"].(int64) == h
+		case "Flush":
+			if seen {
+				return true
+			}
+		}
+	}
+	return false
+}
+
 func (l *evlog) add(m trace.M) {
 	l.mu.Lock()
 	l.ev = append(l.ev, m)
@@ -136,14 +154,20 @@ func RunSched(r *Rec, n *Names, s Sched) SchedResult {
 					return stub.ResultsServed(runTip)
 				})
 				if ok && !died {
-					// BlockResults(tip) has been served: IndexBlock(tip) follows immediately
-					waitFor(200*time.Millisecond, func() bool {
+					// BlockResults(tip) has been served: IndexBlock(tip) follows; wait until its batch has been written
+					// (or, for an indexer that writes differently, until IndexBlock has returned)
+					if !waitFor(10*time.Second, func() bool {
 						if isDead() {
+							return true
+						}
+						if lg.flushedAfterIndexBlock(runTip) {
 							return true
 						}
 						l, _ := idx.GetLastRequestIndexedBlock()
 						return l >= runTip
-					})
+					}) {
+						res.Stuck = "IndexBlock(tip) never finished"
+					}
 				}
 				if !ok {
 					res.Stuck = "service did not fetch the tip"
